@@ -202,8 +202,8 @@ impl Suite for Sched {
         // absent-column queries (a column some partitions lack, a column no partition has) are part of the ordinary
         // classes since the repairs 3a6284a / 7a0a728; evictions (finding F14b) stay in dedicated classes
         let f_inject: &[(&str, &[&str])] = &[
-            ("queries", &["all", "count", "sorted", "lack", "nosuch"]),
-            ("queries+ingest", &["all", "count", "lack", "nosuch", "ingest"]),
+            ("queries", &["all", "count", "sorted", "lack", "nosuch", "star"]),
+            ("queries+ingest", &["all", "count", "lack", "nosuch", "star", "ingest"]),
             ("evict", &["evict", "all", "sorted"]),
             ("evict", &["evict", "cols3"]),
         ];
@@ -240,6 +240,8 @@ impl Suite for Sched {
                 ("query", "lack", &["flush"]),
                 ("query", "nosuch", &["flush"]),
                 ("query", "nosuch", &["flush", "ingest"]),
+                ("query", "star", &["flush"]),
+                ("query", "star", &["flush", "ingest"]),
             ];
             for (label, occ, only_restart) in Q_LABELS {
                 if *only_restart && *variant != "restart" {
@@ -253,8 +255,8 @@ impl Suite for Sched {
                 }
             }
             let i_runs: &[(&str, &[&str])] = &[
-                ("queries", &["all", "count", "sorted", "lack", "nosuch"]),
-                ("queries+flush", &["all", "nosuch", "flush"]),
+                ("queries", &["all", "count", "sorted", "lack", "nosuch", "star"]),
+                ("queries+flush", &["all", "nosuch", "star", "flush"]),
             ];
             if full {
                 for (label, table) in I_LABELS {
